@@ -281,6 +281,7 @@ def run_rc(pid, tier, seed, replay=None):
         # 3. failures reported by workers (shrunk by rapidcheck) and crashed workers
         cands = [f for f, _ in tot["failures"]]
         hung = []
+        hang_checked = 0
         for p, lf, w in procs:
             if p.returncode == -9:
                 # killed at the hard limit: a case that does not finish is "inconclusive"
@@ -288,11 +289,12 @@ def run_rc(pid, tier, seed, replay=None):
                 cur = outs[w] + ".current"
                 if os.path.exists(cur):
                     hung.append(open(cur).read()[:600])
-                    if P.get("hang_seconds"):
+                    if P.get("hang_seconds") and hang_checked < 2 and not any("does not terminate" in m for _, m in violations):
                         # for properties whose cases are a compile and a few scans of small buffers
                         # (milliseconds), a case that does not finish alone, three times, within
                         # hang_seconds is a non-terminating compile / scan: the code under test hangs
                         hs = P["hang_seconds"]
+                        hang_checked += 1  # every worker may be stuck on the same kind of case: two candidates are enough
                         r3 = []
                         for _ in range(3):
                             try:
